@@ -71,7 +71,11 @@ func e2Check(t *testing.T, id, name string, checks int, rule string, p e2Profile
 const e2RuleCommon = "history of user / kubelet / informer-delivery / reconcile-step / clock ops drawn from the ops enabled in the live simulated control plane (real controllers, store and webhooks), then driven to quiescence; "
 
 func TestC05_history(t *testing.T) {
-	p := profileWith(baseProfile, func(p *e2Profile) { p.crashes, p.faults, p.cron = true, true, true; p.weights["createJob"] = 10; p.weights["tick"] = 4 })
+	p := profileWith(baseProfile, func(p *e2Profile) {
+		p.crashes, p.faults, p.cron = true, true, true
+		p.weights["createJob"] = 10
+		p.weights["tick"] = 4
+	})
 	e2Check(t, "C05", "history", 1500, e2RuleCommon+"oracle: every start write of a Forbid/Enqueue Job is judged against the authoritative active set; counter == truth at quiescence; non-trivial = a Job started into the last free slot, a Job waited/was refused at the limit, or the controller restarted; distinct = distinct trace",
 		p, []string{"C05"}, func(l []string) bool {
 			return hasAny(l, "started-at-last-slot", "enqueue-waiting-at-limit", "rejected-by-queue", "restart")
@@ -79,7 +83,12 @@ func TestC05_history(t *testing.T) {
 }
 
 func TestC06_history(t *testing.T) {
-	p := profileWith(baseProfile, func(p *e2Profile) { p.weights["createJob"] = 12; p.maxJCs = 1; p.faults, p.cron = true, true; p.weights["tick"] = 4 })
+	p := profileWith(baseProfile, func(p *e2Profile) {
+		p.weights["createJob"] = 12
+		p.maxJCs = 1
+		p.faults, p.cron = true, true
+		p.weights["tick"] = 4
+	})
 	e2Check(t, "C06", "history", 1500, e2RuleCommon+"oracle: rejection / FIFO monitors on every write + fixpoint predicate; non-trivial = a Forbid Job refused at the limit or an Enqueue Job waiting at the limit; distinct = distinct trace",
 		p, []string{"C06"}, func(l []string) bool { return hasAny(l, "rejected-by-queue", "enqueue-waiting-at-limit") })
 }
@@ -121,7 +130,12 @@ func TestC13_history(t *testing.T) {
 }
 
 func TestC15_history(t *testing.T) {
-	p := profileWith(baseProfile, func(p *e2Profile) { p.weights["deleteJob"] = 4; p.weights["createJob"] = 10; p.cron = true; p.weights["tick"] = 4 })
+	p := profileWith(baseProfile, func(p *e2Profile) {
+		p.weights["deleteJob"] = 4
+		p.weights["createJob"] = 10
+		p.cron = true
+		p.weights["tick"] = 4
+	})
 	e2Check(t, "C15", "history", 1500, e2RuleCommon+"oracle: JobConfig status == authoritative queued/active sets, counts and state at quiescence; lastScheduled/lastExecuted monotone on every write and >= every existing Job; non-trivial = a Job was removed during the run; distinct = distinct trace",
 		p, []string{"C15"}, func(l []string) bool { return hasAny(l, "job-removed") })
 }
